@@ -2,7 +2,11 @@
      Roots.v    p-th root on R (proof instance of Model.Root), powers
      IPS.v      abstract semi-inner-product space: Cauchy-Schwarz, induced norm
      TensorR.v  tensor-space weightings (const / array), all exponents
+     Mink.v     Minkowski's inequality for weighted p-norms, every natural p
+     ComplexR.v complex tensor spaces as (re, im): sesquilinearity, Cauchy-Schwarz
      DiscrR.v   uniform partitions, boundary-cell fractions, ||1||^2 = volume
-     TreeR.v    nested product spaces
+     TreeR.v    nested product spaces with exponent 2: flattening theorem, inner-product axioms
+     LeafR.v    norms / dist of tensor and discretized leaves, every exponent
+     TreeNorm.v norms / dist on nested product spaces with mixed exponents
    This file only re-exports them. *)
-From Verif Require Export C02.Roots C02.IPS C02.TensorR C02.DiscrR C02.TreeR.
+From Verif Require Export C02.Roots C02.IPS C02.TensorR C02.Mink C02.ComplexR C02.DiscrR C02.TreeR C02.LeafR C02.TreeNorm.
